@@ -396,7 +396,7 @@ def find_check_cache(context):
         # The set of directories we walked may have changed even though the
         # results didn't (e.g. a new, so-far uninteresting subdirectory), so
         # make sure future changes to them are noticed as well.
-        _rewrite_depfile(context.env, set(all_seen_dirs))
+        _rewrite_depfile(context.env, set(all_seen_dirs), regen_files.outputs)
 
         # We don't want to regenerate. To make sure the build backend is happy,
         # update the modification time of all the output files.
@@ -406,26 +406,36 @@ def find_check_cache(context):
         raise AbortConfigure()
 
 
-def _rewrite_depfile(env, seen_dirs):
+def _make_depfile_target(outputs):
+    # When regeneration produces several files, the Make rule that actually
+    # runs bfg9000 is the one for the stamp file (see `multitarget_rule`), so
+    # that's what has to depend on the directories we walked.
+    if len(outputs) > 1:
+        return make.filepath.addext('.stamp')
+    return make.filepath
+
+
+def _rewrite_depfile(env, seen_dirs, outputs):
     if not seen_dirs:
         return
     if env.backend == 'make':
-        write_depfile(env, Path(depfile_name), make.filepath, seen_dirs,
-                      makeify=True)
+        write_depfile(env, Path(depfile_name), _make_depfile_target(outputs),
+                      seen_dirs, makeify=True)
     elif env.backend == 'ninja':
         write_depfile(env, Path(depfile_name), ninja.filepath, seen_dirs)
 
 
 @make.post_rules_hook
 def make_find_dirs(build_inputs, buildfile, env):
+    regen_files = regenerate.RegenerateFiles.make(build_inputs, env)
     if build_inputs['find_dirs']:
-        write_depfile(env, Path(depfile_name), make.filepath,
+        write_depfile(env, Path(depfile_name),
+                      _make_depfile_target(regen_files.outputs),
                       build_inputs['find_dirs'], makeify=True)
         buildfile.include(depfile_name)
 
     FindCacheFile(
-        regenerate.RegenerateFiles.make(build_inputs, env),
-        build_inputs['find_cache']
+        regen_files, build_inputs['find_cache']
     ).save(env.builddir.string())
 
 
